@@ -1899,7 +1899,7 @@ def ltu(x, y):
             return op(OP_LTU, x, y)
     except AttributeError:
         pass
-    x.sf = y.sf = True
+    x.sf = y.sf = False
     return x < y
 
 
@@ -1910,7 +1910,7 @@ def geu(x, y):
             return op(OP_GEU, x, y)
     except AttributeError:
         pass
-    x.sf = y.sf = True
+    x.sf = y.sf = False
     return x >= y
 
 
